@@ -410,7 +410,12 @@ OUT_NAMES = {'rel': 'result.out', 'rel_nested': 'sub dir/nested.out', 'rel_nosuf
 UNWRITABLE_FORMS = ['rel_isdir', 'rel_dangling']
 UNWRITABLE_NAMES = {'rel_isdir': 'taken.out', 'rel_dangling': 'dangling.out'}
 # (the *_json kinds hit the JSON written next to the report - or whatever temporary sibling it is written through - and nothing else)
-FAULTS = ['enospc', 'eio', 'eacces', 'vanish', 'cancel', 'enospc_json', 'eacces_json']
+# (cancel_deep: the caller's cancellation arrives at an arbitrary LINE of the simulator, not at a system call - see _deep_tracer)
+FAULTS = ['enospc', 'eio', 'eacces', 'vanish', 'cancel', 'enospc_json', 'eacces_json', 'cancel_deep']
+# (counted from the start of the run, or from the moment Model.Calculate is entered: reading and validating the input executes
+# a hundred times more lines than the numerical core, which is where the time goes)
+DEEP_AT = [('run', 40), ('calc', 5), ('calc', 25), ('run', 600), ('calc', 60), ('calc', 150), ('run', 10000), ('calc', 400), ('calc', 2000),
+           ('run', 150000), ('calc', 20000)]
 FAULT_AT = [1, 2, 3, 4, 5, 6, 7, 8, 10, 12, 15, 20, 25, 30, 40]
 # (the last one lives in the decoy directory under a name that also exists, relative to the package directory, in the
 # repository: an entry point that resolves a relative input path after changing directory reads the wrong file)
@@ -720,6 +725,47 @@ class Fault:
         self.fired = None
 
 
+def _deep_tracer(k, fault, target):
+    """cancellation (KeyboardInterrupt) at the target-th executed LINE of the geophires_x package during one run: sys.settrace hands
+    out line events only for frames of that package, and the interrupt is delivered at the first such line at or after the target
+    where no third-party frame is on the stack (an interrupt that unwinds through a numerical library is that library's business:
+    mpmath, for one, restores its working precision without try/finally)"""
+    pkg = os.path.join(os.path.abspath(REPO_SRC), 'geophires_x') + os.sep
+    mode, target = target
+    state = {'n': 0, 'on': mode == 'run'}
+
+    def local(frame, event, arg):
+        if event == 'line' and fault.fired is None and state['on']:
+            state['n'] += 1
+            if state['n'] >= target:
+                f = frame.f_back
+                pure = True
+                while f is not None:
+                    fn = f.f_code.co_filename
+                    if 'site-packages' in fn:
+                        pure = False
+                        break
+                    if fn.endswith('histsim.py'):
+                        break
+                    f = f.f_back
+                if pure:
+                    where = f'{os.path.basename(frame.f_code.co_filename)}:{frame.f_code.co_name}'
+                    fault.fired = ('line', where)
+                    k.fault_fired['cancel_deep'] += 1
+                    k.record('fault:cancel_deep', f'{mode}+{target}')
+                    sys.settrace(None)
+                    raise KeyboardInterrupt()
+        return local
+
+    def tracer(frame, event, arg):
+        if event == 'call' and fault.fired is None and frame.f_code.co_filename.startswith(pkg):
+            if not state['on'] and frame.f_code.co_name == 'Calculate' and frame.f_code.co_filename.endswith('Model.py'):
+                state['on'] = True
+            return local
+        return None
+    return tracer
+
+
 def _fault_hook(k):
     def hook(kind, detail):
         f = k.armed
@@ -902,10 +948,15 @@ class Exec:
                 p.atomic -= 1
                 pf = ex.pending_fault
                 if pf is not None:
-                    ex.k.armed = Fault(pf['kind'], ex.k.seq + pf['at'])
+                    if pf['kind'] == 'cancel_deep':
+                        ex.k.armed = Fault('cancel_deep', float('inf'))
+                        sys.settrace(_deep_tracer(ex.k, ex.k.armed, DEEP_AT[pf['at'] % len(DEEP_AT)]))
+                    else:
+                        ex.k.armed = Fault(pf['kind'], ex.k.seq + pf['at'])
                     ex.pending_fault = None
 
             def __exit__(self_, *a):
+                sys.settrace(None)
                 K.cur().atomic += 1
                 return False
         return _Live()
